@@ -144,7 +144,14 @@ def r6_documented_predicates(ctx):
     ctx.require(found >= 3, "expected Exactly, StrictSubclass and HasMethod")
 
 
+def r7(ctx):
+    from .c01 import r3_candidates_only_narrow
+
+    r3_candidates_only_narrow(ctx)
+
+
 RULES = [
+    ("C13.R7", "P1", r7, "a method is a candidate only if every argument's type satisfies its parameter type"),
     ("C13.R1", "P1", r1, "reflexive shortcut first"),
     ("C13.R2", "P1", r2_covariance, "argument-wise covariance"),
     ("C13.R3", "P1", r3, "no zip of two types' parameters without a length guard"),
